@@ -243,25 +243,33 @@ theorem good_beforeFirst (all : List Bytes) (hl : ∀ b ∈ all, b.length < 2 ^ 
     rw [hp]
     simp only [rewindPos_val, List.drop_zero, h1, decodeFile_encAll all hl]
 
-/-- a file left behind by an object whose first pass ended (or that was rewound) is the whole encoding -/
+/-- a file left behind is the whole encoding -/
 theorem good_close (all : List Bytes) (s : CSt) (hg : Good all s) (f : Bytes) (hc : cClose s = some f) : f = encAll all := by
   rcases hg with ⟨hp, done, h1, h2, h3⟩ | ⟨hp, h1, _⟩
   · unfold cClose at hc
     rw [hp] at hc
     simp only at hc
     split at hc
-    · rename_i hs
-      injection hc with hc
-      have := h3 hs
-      rw [this] at h1
-      simp [allBytes] at h1
-      rw [← hc, h2, h1]
-    · cases hc
+    · injection hc with hc
+      rw [← hc, h1, h2, encAll_append]; rfl
+    · split at hc
+      · rename_i hs
+        injection hc with hc
+        have := h3 hs
+        rw [this] at h1
+        simp [allBytes] at h1
+        rw [← hc, h2, h1]
+      · cases hc
   · unfold cClose at hc
     rw [hp] at hc
     simp only at hc
     injection hc with hc
     rw [← hc, h1]
+
+/-- with the destructor repair every object leaves a file -/
+theorem close_total (hd : dtorDrains = true) (s : CSt) : ∃ f, cClose s = some f := by
+  unfold cClose
+  cases s.phase <;> simp [hd]
 
 theorem good_replay_state (all : List Bytes) :
     Good all { phase := .replay, file := encAll all, items := chunkItems all } :=
